@@ -6,8 +6,8 @@ CONSTANTS
     Everys = {0, 1, 2, 3, 4, 5}
     Aligns = {FALSE, TRUE}
     Fills = {FALSE, TRUE}
-    MaxTime = 7
-    MaxPoints = 6
+    MaxTime = 12
+    MaxPoints = 7
     PurgeGuard = TRUE
 INVARIANTS
     TypeOK
